@@ -194,6 +194,7 @@ struct IoFault : Profile {
         mx.cache_off               = p.knob("cacheoff", 0) != 0;
         mx.no_reopen_after_failure = true;
         mx.skip_sd                 = false;
+        mx.leave_sd_ids_open       = true;
         for (size_t i = 0; i < p.ops.size(); i++) {
             ctx.begin_op((int)i);
             // after a reported failure the program only releases and closes what it holds: whatever the failed
